@@ -73,6 +73,9 @@ type upResult struct {
 	filesBefore int
 	filesAfter  int
 	casAliased  bool // the CAS digest may legitimately exist because of other cases
+	// FetchBlob only: the harness origin did not hand the whole body to its connection
+	// (never asked, or the write failed): a non-OK answer is then not attributable
+	originUndelivered bool
 }
 
 func classOfHTTP(h lib.HTTPResult) (outcome, class, status string) {
@@ -290,12 +293,13 @@ func execUpload(r *lib.Run, t *target, cs upCase, serial bool) upResult {
 			}
 			measure()
 			resp, err := cl.Asset.FetchBlob(ctx, req)
-			hits := t.origin.del(p)
+			hits, delivered := t.origin.del(p)
+			res.originUndelivered = delivered == 0 || ctx.Err() != nil
 			if err != nil {
 				res.outcome, res.class, res.status = classOfCode(lib.Code(err), "rpc: "+errMsg(err))
 			} else {
 				c := codes.Code(resp.GetStatus().GetCode())
-				res.status = fmt.Sprintf("FetchBlob response status %s (origin hits %d)", c, hits)
+				res.status = fmt.Sprintf("FetchBlob response status %s (origin hits %d, complete deliveries %d)", c, hits, delivered)
 				if c == codes.OK {
 					res.outcome = "accepted"
 				} else {
@@ -449,6 +453,8 @@ type acPresence struct {
 	Indexed  bool   // in-process: an index entry mentions the key
 	got      *pb.ActionResult
 	httpBody []byte
+	// unobserved: a probe got no answer from the server (transport error, watchdog)
+	unobserved []string
 }
 
 func (p acPresence) present() bool { return p.GRPC == "OK" || p.HTTP == 200 || p.Indexed }
@@ -461,16 +467,29 @@ func (t *target) probeAC(kind, key string) acPresence {
 		ar, err := t.cl.AC.GetActionResult(ctx, &pb.GetActionResultRequest{ActionDigest: &pb.Digest{Hash: key, SizeBytes: 1}})
 		p.GRPC = lib.Code(err).String()
 		p.got = ar
+		if o, _, _ := classOfCode(lib.Code(err), ""); o == "unobserved" || (err != nil && ctx.Err() != nil) {
+			p.unobserved = append(p.unobserved, "GetActionResult: "+err.Error())
+		}
 		if t.acURL != "" {
 			h := t.httpDo("GET", t.acURL+"/ac/"+key, nil, nil)
 			p.HTTP, p.httpBody = h.Status, h.Body
+			p.noteHTTP("GET /ac", h)
 		}
 	} else if t.rawURL != "" {
 		h := t.httpDo("GET", t.rawURL+"/ac/"+key, nil, nil)
 		p.HTTP, p.httpBody = h.Status, h.Body
+		p.noteHTTP("GET /ac (unvalidated)", h)
 	}
 	p.Indexed = t.indexed(key)
 	return p
+}
+
+func (p *acPresence) noteHTTP(what string, h lib.HTTPResult) {
+	if h.Err != nil {
+		p.unobserved = append(p.unobserved, what+": "+h.Err.Error())
+	} else if h.BodyErr != nil {
+		p.unobserved = append(p.unobserved, what+": body: "+h.BodyErr.Error())
+	}
 }
 
 // indexed reports whether the in-process index has an entry for the hash (any kind).
@@ -562,7 +581,7 @@ func judgeUpload(r *lib.Run, t *target, cs upCase, res upResult) {
 		}
 		if res.outcome != "accepted" && res.filesBefore >= 0 && res.filesAfter >= 0 {
 			r.Count("upload.filecount-compared")
-			if res.filesAfter != res.filesBefore {
+			if res.filesAfter > res.filesBefore { // fewer files (an eviction between the two reads) is no evidence of a store
 				detail["num_files_before"], detail["num_files_after"] = res.filesBefore, res.filesAfter
 				violate(r, t, key+":files-grew", fmt.Sprintf("over-limit item (logical size %d > max_blob_size %d) on %s was refused (%s) but the cache's file count went from %d to %d", res.itemSize, L, cs.Path, res.status, res.filesBefore, res.filesAfter), detail)
 			}
@@ -574,21 +593,48 @@ func judgeUpload(r *lib.Run, t *target, cs upCase, res upResult) {
 	if res.outcome == "unobserved" {
 		return
 	}
+	if res.outcome != "accepted" && res.originUndelivered {
+		// FetchBlob folds every problem between the server and the origin into its response
+		// status; the harness origin did not deliver the body completely, so the non-OK
+		// answer is not attributable to the size limit: not judged
+		r.Count("upload.fetch-origin-did-not-deliver." + cs.Path)
+		return
+	}
 	if res.outcome != "accepted" {
 		violate(r, t, fmt.Sprintf("%s:%s-limit-refused", key, rel), fmt.Sprintf("item of logical size %d (max_blob_size %d, transport size %d) was refused on %s: %s (%s)", res.itemSize, L, res.transport, cs.Path, res.status, t.cfg), detail)
 		return
 	}
-	// accepted => readable
+	// accepted => present on every read path. A probe that got no answer (transport error,
+	// watchdog) is not an observation of absence; byte-for-byte fidelity of what is read
+	// back belongs to C01/C02/C11 and is only counted here.
 	if len(res.cas) > 0 {
 		p := lastProbe
-		if !(p.FindMissingPresent && p.HeadStatus == 200 && p.GetStatus == 200 && bytes.Equal(p.GetBody, res.blob)) {
+		if len(p.Errs) > 0 {
+			r.Count("upload.readback-probe-unobserved")
+			detail["probe_errors"] = p.Errs
+		} else if p.FindMissingPresent && p.HeadStatus == 200 && p.GetStatus == 200 {
+			if bytes.Equal(p.GetBody, res.blob) {
+				r.Count("upload.readback.cas.identical")
+			} else {
+				r.Count("upload.readback.cas.DIFFERS(not-this-property)")
+			}
+		} else {
 			violate(r, t, key+":accepted-not-readable", fmt.Sprintf("accepted blob (%s,%d) is not present/readable: findmissing_present=%v head=%d get=%d (%d bytes, sha256 %s)",
 				res.cas[0].Hash, res.cas[0].Size, p.FindMissingPresent, p.HeadStatus, p.GetStatus, len(p.GetBody), lib.Sha256Hex(p.GetBody)), detail)
 		}
 	}
+	if res.acKind != "" && len(acp.unobserved) > 0 {
+		r.Count("upload.readback-probe-unobserved")
+		return
+	}
 	switch res.acKind {
 	case "raw":
-		if acp.HTTP != 200 || !bytes.Equal(acp.httpBody, res.rawBody) {
+		if acp.HTTP == 200 && !bytes.Equal(acp.httpBody, res.rawBody) {
+			r.Count("upload.readback.raw.DIFFERS(not-this-property)")
+		} else if acp.HTTP == 200 {
+			r.Count("upload.readback.raw.identical")
+		}
+		if acp.HTTP != 200 {
 			violate(r, t, key+":accepted-not-readable", fmt.Sprintf("accepted raw item %s (%d bytes) reads back as HTTP %d with %d bytes", res.acKey, len(res.rawBody), acp.HTTP, len(acp.httpBody)), detail)
 		}
 	case "ac":
@@ -622,12 +668,22 @@ func judgeUpload(r *lib.Run, t *target, cs upCase, res upResult) {
 			}
 			return c
 		}
-		if acp.GRPC != "OK" || !proto.Equal(norm(acp.got), norm(want)) {
+		if acp.GRPC == "OK" && !proto.Equal(norm(acp.got), norm(want)) {
+			r.Count("upload.readback.ac-grpc.DIFFERS(not-this-property)")
+		} else if acp.GRPC == "OK" {
+			r.Count("upload.readback.ac-grpc.identical")
+		}
+		if acp.GRPC != "OK" {
 			violate(r, t, key+":accepted-not-readable", fmt.Sprintf("accepted ActionResult %s (serialized %d bytes) does not read back through GetActionResult: code %s, equal=%v", res.acKey, res.itemSize, acp.GRPC, proto.Equal(norm(acp.got), norm(want))), detail)
 		}
 		if t.acURL != "" {
 			got := &pb.ActionResult{}
-			if acp.HTTP != 200 || proto.Unmarshal(acp.httpBody, got) != nil || !proto.Equal(got, res.sentAR) {
+			if acp.HTTP == 200 && (proto.Unmarshal(acp.httpBody, got) != nil || !proto.Equal(got, res.sentAR)) {
+				r.Count("upload.readback.ac-http.DIFFERS(not-this-property)")
+			} else if acp.HTTP == 200 {
+				r.Count("upload.readback.ac-http.identical")
+			}
+			if acp.HTTP != 200 {
 				violate(r, t, key+":accepted-not-readable", fmt.Sprintf("accepted ActionResult %s (serialized %d bytes) does not read back through GET /ac: HTTP %d, %d bytes", res.acKey, res.itemSize, acp.HTTP, len(acp.httpBody)), detail)
 			}
 		}
